@@ -692,6 +692,17 @@ func (in *Interp) callBuiltin(caller *frame, callpos token.Pos, fn *ssa.Builtin,
 		// copy struct/array elements to keep value semantics
 		src := args[1].([]Value)
 		et := fn.Type().(*types.Signature).Params().At(0).Type().Underlying().(*types.Slice).Elem()
+		if in.conc != nil && len(in.conc.gors) > 1 {
+			for i := range src {
+				in.raceRead(&src[i], caller)
+			}
+			if l := len(arg0); cap(arg0)-l >= len(src) {
+				spare := arg0[:l+len(src)]
+				for i := range src {
+					in.raceWrite(&spare[l+i], caller)
+				}
+			}
+		}
 		for _, e := range src {
 			arg0 = append(arg0, copyVal(et, e))
 		}
@@ -715,11 +726,16 @@ func (in *Interp) callBuiltin(caller *frame, callpos token.Pos, fn *ssa.Builtin,
 		}
 		// handle overlap like the built-in: copy via temporary
 		tmp := make([]Value, n)
+		_, fromSlice := args[1].([]Value)
 		for i := 0; i < n; i++ {
+			if fromSlice {
+				in.raceRead(&src[i], caller)
+			}
 			tmp[i] = copyVal(et, src[i])
 		}
 		for i := 0; i < n; i++ {
 			in.writeBarrier(&dst[i])
+			in.raceWrite(&dst[i], caller)
 			dst[i] = tmp[i]
 		}
 		return mkInt(uint64(n), 64)
